@@ -52,6 +52,7 @@ type Engine struct {
 	infos           map[*ssa.Function]*fnInfo
 	intr            map[*ssa.Function]intrinsic
 	solverBin       string
+	logic           string
 	solverTimeoutMs int
 	smtLog          string
 	globalsMu       sync.Mutex
